@@ -87,7 +87,8 @@ def make_random(rng, idx):
     case = GH.HierCase(
         rng, leaves, n_ids, n_out, fix_sigma, em_names=em_names,
         reduced=rng.random() < 0.3, posterior=rng.random() < 0.3,
-        id_style=['default', 'int', 'str'][int(rng.integers(3))])
+        id_style=['default', 'int', 'str', 'unsorted'][int(rng.integers(4))],
+        nest=GP.random_nest(rng) if rng.random() < 0.3 else None)
     return case
 
 
